@@ -64,12 +64,13 @@ def check(case):
     Tp = case.get('Tp', T - 60.0) if mode == 'temperature' else None
     pp = case.get('pp', 0.8) if mode == 'pressure' else None
     pva = Pervaporation(Membrane(name='m'), mix); pvb = Pervaporation(Membrane(name='m'), mixb)
-    a = outcome(lambda: pva.calculate_partial_fluxes(T, Composition(x, 'weight'), PREC, Tp, pp, Permeance(P1), Permeance(P2), model))
-    b = outcome(lambda: pvb.calculate_partial_fluxes(T, Composition(1 - x, 'weight'), PREC, Tp, pp, Permeance(P2), Permeance(P1), model))
+    un = case.get('units', 'kg/(m2*h*kPa)')
+    a = outcome(lambda: pva.calculate_partial_fluxes(T, Composition(x, 'weight'), PREC, Tp, pp, Permeance(P1, un), Permeance(P2, un), model))
+    b = outcome(lambda: pvb.calculate_partial_fluxes(T, Composition(1 - x, 'weight'), PREC, Tp, pp, Permeance(P2, un), Permeance(P1, un), model))
     if a[0] == b[0] == 'ok':
         s = abs(a[1][0]) + abs(a[1][1])
         if abs(a[1][0] - b[1][1]) > 1e-5 * s + 1e-12 or abs(a[1][1] - b[1][0]) > 1e-5 * s + 1e-12:
-            fails.append("calculate_partial_fluxes (%s, %s mode): fluxes of the relabelled problem are not exchanged: %r vs %r" % (model, mode, tuple(map(float, a[1])), tuple(map(float, b[1]))))
+            fails.append("calculate_partial_fluxes (%s, %s mode, explicit permeances in %s): fluxes of the relabelled problem are not exchanged: %r vs %r" % (model, mode, un, tuple(map(float, a[1])), tuple(map(float, b[1]))))
     # ideal process models
     func = case.get('func')
     if func:
@@ -128,7 +129,7 @@ def corpus(seed, n):
     while len(out) < n:
         i += 1
         c = dict(builtin=rng.choice(names), model='NRTL', mode=rng.choice(['vacuum', 'temperature', 'pressure']), x=rng.uniform(0.03, 0.97), T=rng.uniform(300, 370),
-                 P1=10 ** rng.uniform(-3, -1), P2=10 ** rng.uniform(-5, -2), pp=rng.uniform(0, 1.0))
+                 P1=10 ** rng.uniform(-3, -1), P2=10 ** rng.uniform(-5, -2), pp=rng.uniform(0, 1.0), units=rng.choice(['kg/(m2*h*kPa)', 'kg/(m2*h*kPa)', 'SI', 'GPU']))
         c['Tp'] = c['T'] - rng.uniform(30, 90)
         if i % 3 == 0:
             c['func'] = rng.choice(['ideal_isothermal_process', 'ideal_non_isothermal_process'])
